@@ -110,16 +110,22 @@ func runC18(c *Ctx, idx int) {
 	// still has a header structure, whichever way an empty caption is read
 	f.BlankCap = (idx/3)%2 == 0
 	f.EditSpell = int(mix64(uint64(idx)) % 4)
-	src := f.doc()
+	f.Pre = int(mix64(uint64(idx)*5+1) % 8) // 0, 6, 7: no other table
+	src, lo, hi := f.docRange()
 	c.SetInput(func() any { return map[string]any{"html": src, "features": f} })
 	cr := c.applyVariant(src, nil, idx/3)
 	if !c.usable(cr) {
 		return
 	}
+	// is the table under test (identified by the tokens written inside it) a <table> in the output?
 	got := false
 	walk(cr.Res.Node, func(n *html.Node) bool {
 		if n.Type == html.ElementNode && n.Data == "table" {
-			got = true
+			for _, t := range textNodeTokens(n, nil) {
+				if k := tokIdx(t); k > lo && k <= hi {
+					got = true
+				}
+			}
 		}
 		return !got
 	})
